@@ -407,24 +407,61 @@ def run(ctx):
                   "Add<usize> yields a wrong index for (index, n, got) = %s; it must be min(index + n, 2^60 - 1) so the id never exceeds 2^62 - 1" % bad[:3],
                   "30 cases")
     b = ru.need(ctx, "C16-b", S + "::is_request")
-    if b:
-        ps = [p for p in ru.all_paths(ctx, "C16-b", b) if p.end == "return"]
-        truths = [p for p in ps if expr.fold(p.ret) == 1 or pa.vfmt(p.ret) in ("true", "const true")]
-        # the path returning true must have tested dir == Bi and initiator == Client
-        def eqs(p):
-            out = []
-            for e in p.calls("::eq"):
-                out.append((pa.vfmt(e[3][0]), pa.vfmt(e[3][1])))
-            return out
-        full = [p for p in ps if len(eqs(p)) == 2]
-        ok = False
-        for p in full:
-            e = eqs(p)
-            s = " ".join("%s==%s" % x for x in e)
-            if "dir@" in s and "Bi" in s and "initiator@" in s and "Client" in s:
-                ok = True
-        ctx.check(ok, "C16-b", b.key, "is_request = (dir == Bi && initiator == Client)",
-                  "is_request compares %s" % [eqs(p) for p in ps], "")
+    if b and all(parts.values()):
+        # truth table over the four kinds of stream id, evaluated on the extracted expressions (however the test is written:
+        # `dir() == Bi && initiator() == Client`, a `match` on the pair, a mask on the raw value, `!is_push() && ..`)
+        def variant_of(v, idv):
+            if v[0] == "agg" and v[1] in (S.rsplit("::", 1)[0] + "::Dir", S.rsplit("::", 1)[0] + "::Side"):
+                return v[2]
+            if v[0] == "call" and v[1] in (S + "::dir", S + "::initiator") and v[2] and v[2][0][0] == "param" and v[2][0][1] == 1:
+                outs = ev_get(pa.short(v[1]), idv)
+                return next(iter(outs)) if len(outs) == 1 else None
+            return None
+
+        def ev_pred(name, idv, depth=0):
+            body_ = prog.one("%s::%s" % (S, name))
+            if body_ is None:
+                return None
+
+            def sub(v):
+                if v == ("param", 1, (".0",)) or v == ("param", 1, ("0",)):
+                    return idv
+                if v[0] == "call" and pa.short(v[1]) in ("eq", "ne") and "PartialEq" in v[1] and len(v[2]) == 2:
+                    a_, b_ = variant_of(v[2][0], idv), variant_of(v[2][1], idv)
+                    if a_ is None or b_ is None:
+                        return None
+                    return int((a_ == b_) == (pa.short(v[1]) == "eq"))
+                if v[0] == "call" and v[1] in (S + "::is_push", S + "::is_request") and depth < 2 and v[2] and v[2][0][0] == "param":
+                    r_ = ev_pred(pa.short(v[1]), idv, depth + 1)
+                    return next(iter(r_)) if r_ and len(r_) == 1 else None
+                return None
+            outs = set()
+            for p in [p for p in ru.all_paths(ctx, "C16-b", body_) if p.end == "return"]:
+                feasible = True
+                for t in p.tests:
+                    if t[3][0] == "discr":
+                        var = variant_of(t[3][1], idv)
+                        h = None if var is None or t[2] == "otherwise" else (var in t[2].split("|"))
+                    else:
+                        h = expr.test_holds(t, consts, sub)
+                    if h is None:
+                        return None
+                    if h is False:
+                        feasible = False
+                        break
+                if feasible:
+                    outs.add(expr.fold(p.ret, consts, sub))
+            return outs
+        bad = []
+        for index in (0, 1, 7, (1 << 60) - 1):
+            for r in range(4):
+                idv = index << 2 | r
+                got = ev_pred("is_request", idv)
+                if got != {int(r == 0)}:
+                    bad.append((idv, got))
+        ctx.check(not bad, "C16-b", b.key, "is_request = (dir == Bi && initiator == Client)",
+                  "is_request must hold exactly for client-initiated bidirectional ids (id & 3 == 0); evaluated over the four kinds of id it "
+                  "answers (id, result) = %s (None: the form could not be evaluated)" % bad[:4], "16 ids")
 
     # ---------------------------------------------------------- C16-c constructor privacy (field visibility)
     for adt, fld in ((S, "0"),):
